@@ -252,6 +252,14 @@ func genC10(c *Corpus, pl pools, seed uint64, tier string) *RunSpec {
 		}
 		profs = append(profs, pool[r.intn(len(pool))])
 	}
+	if r.chance(6) {
+		// documents whose @context is a reference: every task goes through the JSON-LD document loader
+		for i, pr := range c.Profiles {
+			if pr.ID == "special/context_ref" {
+				profs = []int{i}
+			}
+		}
+	}
 	lim := 40000
 	nShared := r.intn(3)
 	for h := 0; h < nShared; h++ {
